@@ -534,7 +534,7 @@ fn nonascii(s: &mut Stats, names: &[&str], main: &str) {
 pub fn run(mut cx: Ctx) -> ! {
     cx.rule = "every subset of <= 2 (3) features from a 35-entry menu (address, port, threads, timeout, websocket, blacklist file/mode, log level/console/file, cache size in 6 spellings, cache time, hosts quoted/unquoted/empty, routes of all five types incl. multi-pattern, proxy target lists, balancer modes) is rendered in 12 layouts (indentation, comment placement, blank lines, reversed key/section order, sections moved to included files at depth 1 and 2) and loaded with parse_conf + Config::from_tree; the result is compared with the model field by field; every single-fault mutant of every line of three layouts (missing brace, missing value, abc for a number, nonexistent unit, unterminated quote, bad enum word, not a boolean, port/threads out of range), in the main and in included files, must be rejected, naming file and line for syntax faults; a 2-byte and a 4-byte character are inserted at every position (no panic); states = models, transitions = loads; non-trivial = models with >= 2 features and all fault mutants".into();
     let feats = features();
-    let k = cx.pick(3, 4);
+    let k = cx.pick(3, 5);
     cx.bound("features_per_model", k);
     let mut combos: Vec<Vec<usize>> = vec![vec![]];
     for a in 0..feats.len() {
